@@ -44,6 +44,9 @@ type BindSpec struct {
 	Seq    Bytes  `json:"seq"`
 	Action string `json:"action"`
 	Macro  bool   `json:"macro,omitempty"`
+	// Meta: the sequence is installed in its meta-encoded spelling (every ESC x pair of Seq becomes the one
+	// rune \M-x, as `"\C-x\M-a"` in an inputrc file); what the user types for it is still Seq
+	Meta bool `json:"meta,omitempty"`
 }
 
 // HistSrc describes one history source bound to the shell.
@@ -137,10 +140,10 @@ type Plan struct {
 	// TypeWithReport: that many times, when a cursor position report asked for by another task (resize watcher,
 	// Printf caller) is about to be read by the main input loop, the next script token is typed first so that
 	// both arrive in one read (class S0 otherwise types only while nothing else is going on)
-	TypeWithReport int `json:"type_with_report,omitempty"`
-	Tape    []uint32  `json:"tape,omitempty"`
-	UseTape bool      `json:"use_tape,omitempty"`
-	Seed    uint64    `json:"seed"`
+	TypeWithReport int      `json:"type_with_report,omitempty"`
+	Tape           []uint32 `json:"tape,omitempty"`
+	UseTape        bool     `json:"use_tape,omitempty"`
+	Seed           uint64   `json:"seed"`
 }
 
 // Scenario is everything needed to reproduce one check case.
